@@ -726,6 +726,9 @@ func c03Work(c *engine.Ctx) {
 		{"for(var x=y=>{a in b};;){}", "Stmt(for Decl(var Binding(x = (Params(Binding(y)) => Stmt({ Stmt(a in b) })))) ; ; Stmt({ }))", false},
 		{"for(var x=function(){a in b};;){}", "Stmt(for Decl(var Binding(x = Decl(function Params() Stmt({ Stmt(a in b) })))) ; ; Stmt({ }))", false},
 		{"for(;a in b;c in d){}", "Stmt(for ; (a in b) ; (c in d) Stmt({ }))", false},
+		{"for(let [a=b in c] of d);", "Stmt(for Decl(let Binding([ Binding(a = (b in c)) ])) of d Stmt({ }))", false},
+		{"for(var {a=b in c}=d;;);", "Stmt(for Decl(var Binding({ Binding(a = (b in c)) } = d)) ; ; Stmt({ }))", false},
+		{"for(let {x:[a=b in c]} in d);", "Stmt(for Decl(let Binding({ x: Binding([ Binding(a = (b in c)) ]) })) in d Stmt({ }))", false},
 		{"for(var x=a?.[b in c];;){}", "Stmt(for Decl(var Binding(x = (a?.[(b in c)]))) ; ; Stmt({ }))", false},
 		{"for(var x=a?.(b in c);;){}", "Stmt(for Decl(var Binding(x = (a?.((b in c))))) ; ; Stmt({ }))", false},
 		{"for(var x=new A(b in c);;){}", "Stmt(for Decl(var Binding(x = (new A((b in c))))) ; ; Stmt({ }))", false},
